@@ -90,7 +90,23 @@ def case_term(c):
     if k == "file":
         if not c.get("hex"):
             return None
-        return "(check_trailer %s %s)" % (zl(c["vals"]), bl(c["hex"]))
+        t = "(check_trailer %s %s)" % (zl(c["vals"]), bl(c["hex"]))
+        words = []
+        for si, se in enumerate(c.get("series", [])):
+            if si >= len(c.get("st") or []):
+                break
+            n, lim = len(se["times"]), c["lim"]
+            for ci, col in enumerate(se["cols"]):
+                if col["t"] not in ("int", "float") or ci >= len(c["st"][si]):
+                    continue
+                segs = []
+                for lo in range(0, n, lim):
+                    segs.append("[" + ";".join("(%s, %d)" % ("None" if col["nulls"][i] else "Some %d" % col["vals"][i], se["times"][i])
+                                               for i in range(lo, min(lo + lim, n))) + "]")
+                words.append("check_stats_%s %s [%s] (mkStat %s)" % (col["t"], "true" if c.get("cmode", 0) == 3 else "false", ";".join(segs), " ".join(str(int(x)) for x in c["st"][si][ci])))
+        if words:
+            t = "(%s + 16 * lor_all [%s])" % (t, ";".join(words))
+        return t
     if k == "record":
         rj = c.get("recj")
         if not rj or c.get("oracle"):
@@ -558,6 +574,8 @@ def classify(ck, cases, codes, stats):
             unknown = []
             for f in c["fails"]:
                 fid, what = file_fail_finding(ck, c, f)
+                if fid == "C07-preagg-sentinel-init" and code is not None and ((code >> 4) & 2) and ((code >> 4) & 8):
+                    fid = None      # no variant with the Coq model of today's builders explains what is stored
                 if fid:
                     ck.known_finding(fid, what)
                     stats["known"][fid] = stats["known"].get(fid, 0) + 1
@@ -603,6 +621,24 @@ def classify(ck, cases, codes, stats):
             continue
         if c["k"] == "float":
             code &= 15      # the repaired model is the reference when the round trip is exact
+        if c["k"] == "file":
+            w = (code >> 4) & 15
+            code &= 15
+            if w & 1:
+                # the stored statistics are not the reference (repaired builders, repaired codec) although the direct
+                # oracle did not look at them (column with a NaN): which variant of the tree explains them?
+                need = None
+                for bit, fids in ((2, ["C07-preagg-sentinel-init"]), (4, ["C07-preagg-vlc-zero-flag"]),
+                                  (8, ["C07-preagg-sentinel-init", "C07-preagg-vlc-zero-flag"])):
+                    if not (w & bit):
+                        need = fids
+                        break
+                if need is not None and all(ck.match_finding(fid) for fid in need):
+                    for fid in need:
+                        ck.known_finding(fid, dict((a, b) for a, _, b in FILE_SIGS)[fid])
+                        stats["known"][fid] = stats["known"].get(fid, 0) + 1
+                else:
+                    code |= 16      # stored statistics explained by no admissible variant of the builders / codec
         if c["k"] == "frame":
             code &= 15      # flag 16 (model of today's reader) only matters when a prefix was accepted
         if c["k"] == "preagg":
@@ -683,7 +719,7 @@ def main(ck):
         if not stats["violations"]:
             i, code = mism[0]
             ck.broken.append("correspondence C07 (%s block): model and implementation differ, flags=%d "
-                             "(1 mode not applicable, 2 bytes differ, 4 model decoder differs, 8 prefix accepted)" % (cases[i]["k"], code))
+                             "(1 mode not applicable, 2 bytes differ, 4 model decoder differs, 8 prefix accepted; file: 16 stored statistics differ from the builder models)" % (cases[i]["k"], code))
             ck.nofail_detail = {"kind": "correspondence", "case_index": i, "flags": code, "case": slim(cases[i]),
                                 "mismatching_cases": len(mism)}
     # stale open findings (reported, never a violation)
